@@ -159,119 +159,134 @@ def check_src_parser(rep, prog):
               "(evaluated for codes with hex letters too)", q, "if '10' == refcode[6:8]", bad)
 
 
+def _run_doc(I, r, payload, stubs, what):
+    """the JSON document the summarised parser returns for one concrete payload (look-ups replaced by stubs that
+    echo their arguments, so a value reaching the wrong parameter shows in the text)"""
+    import json as _json
+    env = pelx.with_heap(I, {DATA: payload, Op("len", DATA): len(payload), Op("truthy", DATA): bool(payload)})
+    env["__ops__"] = stubs
+    try:
+        v = evaluate(r, env)
+    except CannotEval as e:
+        raise AnalysisError("%s summary not evaluable: %s" % (what, e))
+    except Exception as e:
+        return "<raises %s: %s>" % (type(e).__name__, e)
+    try:
+        return _json.loads(v) if isinstance(v, str) else v
+    except Exception:
+        return v
+
+
 def check_sig_list(rep, prog):
+    """count + 12-byte entries: the summary of the list parser is run on sample lists and compared with the documented layout"""
+    import struct
     rule = "C20.R2.call-sites"
     I = Interpreter(prog, hooks={"opaque": {PD + ".get_signature", PD + ".__init__"}})
     r = I.call(UD + "_parse_signature_list", [Const(1), DATA])
-    cs0 = [e for e in I.events if e.kind == "opaquecall" and e.data[0] == PD + ".get_signature"]
-    loops = list(cs0[0].loops[-1:]) if cs0 and cs0[0].loops else []
     cs = [e for e in I.events if e.kind == "opaquecall" and e.data[0] == PD + ".get_signature"]
-    ok = len(loops) == 1 and len(cs) == 1 and cs[0].loops and cs[0].loops[-1] is loops[0]
-    if ok:
-        L = loops[0]
-        okt = equivalent(L.trip, IntF(0, 4))[0] and not L.breaks
-        base = add(Const(4), mul(Const(12), L.idx))
-        want = tuple(Op("m:hex", F(add(base, Const(4 * k)), 4)) for k in range(3))
-        got = tuple(cs[0].data[1])
-        idxk = [k for k in L.carried if k.endswith(".index")]
-        okd = bool(idxk) and L.carried[idxk[0]][2] == Const(12) and L.carried[idxk[0]][0] == Const(4)
-        apps = [e for e in I.events[L.events[0]:L.events[1]] if e.kind == "append" and not pelx.is_temp(I, e.data[0])]
-        ok = okt and got == want and okd and len(apps) == 1 and apps[0].data[1] == Op("call:" + PD + ".get_signature", *got)
-    rep.check(ok, rule, "signature list: 32-bit count, then per signature three consecutive 4-byte words a, b, c (hex), one entry each, in order",
-              UD + "_parse_signature_list", "parser.get_signature(a, b, c)", "the signature list is not decoded as count + 12-byte signatures (a,b,c in order)")
+    if not cs:
+        raise AnalysisError("_parse_signature_list no longer decodes its entries through ParserData.get_signature")
+    stubs = {"call:" + PD + ".get_signature": lambda a, b, c: "SIG(%s,%s,%s)" % (a, b, c)}
+    bad = None
+    n = 0
+    for count in (0, 1, 2, 3, 7):
+        for extra in (0, 5):
+            words = [bytes(((i * 29 + k * 7 + 0xA1) % 256) for k in range(4)) for i in range(3 * count)]
+            payload = struct.pack(">I", count) + b"".join(words) + bytes(extra)
+            got = _run_doc(I, r, payload, stubs, "signature list")
+            want = {"Signature List": ["SIG(%s,%s,%s)" % tuple(w.hex() for w in words[3 * i:3 * i + 3]) for i in range(count)]}
+            n += 1
+            if got != want and bad is None:
+                bad = "a list of %d signatures%s is shown as %s, documented %s" % (
+                    count, " followed by %d unused bytes" % extra if extra else "", repr(got)[:200], repr(want)[:200])
+    rep.count("signature list samples evaluated", n)
+    rep.check(bad is None, rule, "signature list: 32-bit count, then per signature three consecutive 4-byte words a, b, c (hex), one entry each, in order",
+              UD + "_parse_signature_list", "parser.get_signature(a, b, c)", "the signature list is not decoded as count + 12-byte signatures (a,b,c in order): %s" % bad)
 
 
 def check_register_dump(rep, prog):
+    """every chip, every register, in order, with exactly its data bytes: the summary of the dump parser is run on sample
+    dumps (chips x registers x data sizes) with echoing look-up stubs and compared with the documented rendering"""
+    import struct
     rule = "C20.R3.register-dump"
     I = Interpreter(prog, hooks={"opaque": {PD + ".get_chip_desc", PD + ".get_reg_data", PD + ".__init__"}})
     r = I.call(UD + "_parse_register_dump", [Const(1), DATA])
     where = UD + "_parse_register_dump"
-    loops = sorted([L for L in I.loops.values() if L.func == where], key=lambda L: L.lid)
     chip = [e for e in I.events if e.kind == "opaquecall" and e.data[0] == PD + ".get_chip_desc"]
     reg = [e for e in I.events if e.kind == "opaquecall" and e.data[0] == PD + ".get_reg_data"]
-    if len(chip) != 1 or len(reg) != 1 or not chip[0].loops or len(reg[0].loops) < 2:
+    if not chip or not reg or not chip[0].loops or len(reg[0].loops) < 2:
         rep.fail(rule, where, "for c in range(chip_count) / for r in range(num_regs)", "chips and registers are not decoded by a chip loop with a nested "
-                 "register loop calling get_chip_desc / get_reg_data once each")
+                 "register loop calling get_chip_desc / get_reg_data")
         return
-    Lc, Lr = reg[0].loops[0], reg[0].loops[1]
-    okc = equivalent(Lc.trip, IntF(0, 4))[0] and not Lc.breaks
-    lvc = [x for x in walk(chip[0].data[1][0]) if isinstance(x, Sym) and x.kind == "loopvar"]
-    P = lvc[0] if lvc else None
-    ok1 = P is not None
-    if ok1:
-        model = Op("m:hex", F(P, 4))
-        params = prog.func(PD + ".get_chip_desc").params[1:]
-        got = dict(zip(params, chip[0].data[1]))
-        ok1 = got.get("model_ec") == model and got.get("chip_pos") == IntF(add(P, Const(4)), 2) and got.get("node_pos") == IntF(add(P, Const(6)), 1)
-        okr = equivalent(Lr.trip, IntF(add(P, Const(7)), 4))[0] and not Lr.breaks
-    rep.check(okc and ok1 and okr, rule, "per chip: model/EC @+0/4 (hex), chip position @+4/2, node @+6/1, register count @+7/4; chip count @0/4", where,
-              "parser.get_chip_desc(model_ec, node_pos, chip_pos)", "the chip record layout is not model/4, position/2, node/1, register count/4 or the "
-              "values reach the wrong parameters")
-    lvr = [x for x in walk(reg[0].data[1][1]) if isinstance(x, Sym) and x.kind == "loopvar" and x != P]
-    Q = lvr[0] if lvr else None
-    ok2 = Q is not None and P is not None
-    if ok2:
-        params = prog.func(PD + ".get_reg_data").params[1:]
-        got = dict(zip(params, reg[0].data[1]))
-        ok2 = got.get("model_ec") == Op("m:hex", F(P, 4)) and got.get("reg_id") == Op("m:hex", F(Q, 3)) and got.get("reg_inst") == IntF(add(Q, Const(3)), 1)
-        size = IntF(add(Q, Const(4)), 1)
-        data_hex = Op("m:hex", Op("getslice", DATA, add(Q, Const(5)), add(add(Q, Const(5)), size)))
-    rep.check(ok2, rule, "per register: id @+0/3 (hex), instance @+3/1, size @+4/1, looked up under THIS chip's model/EC", where,
-              "parser.get_reg_data(model_ec, reg_id, reg_inst)", "the register record layout is not id/3, instance/1, size/1 or it is not looked up with "
-              "the current chip's model")
-    if not ok2:
-        return
-    # output lines
-    dump = None
-    for e in I.events:
-        if e.kind == "append" and e.loops and e.loops[-1] is Lc and not pelx.is_temp(I, e.data[0]):
-            dump = e.data[0]
-    items = list_items(I, dump) if dump is not None else None
-    if items is None:
-        rep.fail(rule, where, "dump.append(...)", "no dump line list found")
-        return
-    apps = [e for e in I.events if e.kind == "append" and e.data[0] == dump]
-    chip_line = [e for e in apps if e.loops and e.loops[-1] is Lc]
-    reg_line = [e for e in apps if e.loops and e.loops[-1] is Lr]
-    cd = Op("call:" + PD + ".get_chip_desc", *chip[0].data[1])
-    okl = len(chip_line) == 1 and any(x == cd for x in walk(chip_line[0].data[1])) and chip_line[0].seq < reg[0].seq
-    rep.check(okl, rule, "one description line per chip, before its registers", where, "dump.append(chip_desc.ljust(...))", "chip lines are not emitted once per chip before its registers")
-    rd = Op("call:" + PD + ".get_reg_data", *reg[0].data[1])
-    okr = len(reg_line) == 1
-    detail = ""
-    if okr:
-        line = reg_line[0].data[1]
-        parts = flat_parts(line)
-        name_ok = any(x == Op("getitem", rd, Const(0)) for x in walk(line))
-        addr_ok = any(x == Op("getitem", rd, Const(1)) for x in walk(line))
-        # the data: every hex digit of the register's data bytes, in order (chunks of 4 joined by blanks, upper-cased)
-        chunks = [x for x in walk(line) if isinstance(x, Op) and x.op == "m:join"]
-        data_ok = False
-        if chunks:
-            j = chunks[0]
-            ls = j.args[1] if len(j.args) > 1 else None
-            if isinstance(ls, Op) and ls.op == "listsummary" and len(ls.args) == 1 and ls.args[0].op == "rep":
-                lid = ls.args[0].args[0].v
-                Lk = I.loops.get(lid)
-                el = ls.args[0].args[1]
-                if Lk is not None and isinstance(el, Op) and el.op == "getslice" and el.args[0] == data_hex:
-                    # range(0, len, step) with slice [i : i+step]
-                    it = Lk.iter
-                    if isinstance(it, Op) and it.op == "range" and len(it.args) == 3 and it.args[0] == Const(0) and it.args[1] == Op("len", data_hex):
-                        step = it.args[2]
-                        lo, hi = el.args[1], el.args[2]
-                        data_ok = is_int(step) and step.v > 0 and lo == mul(step, Lk.idx) and hi == add(mul(step, Lk.idx), step)
-        okr = name_ok and addr_ok and data_ok
-        detail = "name from this lookup=%s, address from this lookup=%s, all data digits in order=%s" % (name_ok, addr_ok, data_ok)
-    rep.check(okr, rule, "one line per register: name and address from this register's lookup, then every hex digit of exactly its data bytes", where,
-              "dump.append('  %s (%s) %s' % (reg_name, reg_addr, data_buf.upper()))", "a register line does not show this register's own name, address and "
-              "all of its data bytes (%s)" % detail)
-    # no state carried from chip to chip / register to register other than the stream and the output
-    carried = [k for L in (Lc, Lr) for k in L.carried if "." not in k and not k.startswith("DataStream")]
-    stores = [e for e in I.events if e.kind in ("dict_store", "dictmut") and e.loops and Lc in e.loops]
-    rep.check(not stores, rule, "no lookup results are cached across chips/registers", where, stores[0].node if stores else "loop body",
-              "register names/addresses are cached across chips (%s): a later chip of a different model shows an earlier chip's register data" % (
-                  "dictionary filled inside the loops"), node=stores[0].node if stores else None)
+    # no state carried from chip to chip / register to register other than the stream and the output: a dictionary keyed by
+    # decoded values merges records that happen to share the key (two chips at one position, a register seen before)
+    stores = [e for e in I.events if e.kind in ("dict_store", "dictmut") and e.loops and not pelx.is_temp(I, e.data[0])
+              and not (e.kind == "dict_store" and is_const(e.data[1]))]
+    rep.check(not stores, rule, "no lookup results / records are keyed by decoded values across chips and registers", where,
+              stores[0].node if stores else "loop body",
+              "chips / registers / looked-up names are collected in a dictionary keyed by decoded values (filled inside the loops): a later "
+              "chip or register with the same key shows an earlier one's data or replaces it", node=stores[0].node if stores else None)
+    pc = prog.func(PD + ".get_chip_desc").params[1:]
+    pr = prog.func(PD + ".get_reg_data").params[1:]
+
+    def chip_stub(*a):
+        d = dict(zip(pc, a))
+        return "chip<%s n%s c%s>" % (d.get("model_ec"), d.get("node_pos"), d.get("chip_pos"))
+
+    def reg_stub(*a):
+        d = dict(zip(pr, a))
+        return ("reg<%s %s i%s>%s" % (d.get("model_ec"), d.get("reg_id"), d.get("reg_inst"), "x" * (int(d.get("reg_inst") or 0) % 7 * 3)),
+                "0x%08X" % (0x1000 + int(d.get("reg_inst") or 0)))
+    stubs = {"call:" + PD + ".get_chip_desc": chip_stub, "call:" + PD + ".get_reg_data": reg_stub}
+
+    def payload_of(chips):
+        b = struct.pack(">I", len(chips))
+        for model, cpos, node, regs in chips:
+            b += bytes.fromhex(model) + struct.pack(">HBI", cpos, node, len(regs))
+            for rid, inst, data in regs:
+                b += bytes.fromhex(rid) + bytes([inst, len(data)]) + data
+        return b
+
+    def want_of(chips):
+        out = []
+        for model, cpos, node, regs in chips:
+            out.append((chip_stub(*[{"model_ec": model, "node_pos": node, "chip_pos": cpos}[k] for k in pc]) + " ").ljust(60, "*"))
+            for rid, inst, data in regs:
+                nm, ad = reg_stub(*[{"model_ec": model, "reg_id": rid, "reg_inst": inst}[k] for k in pr])
+                hx = data.hex()
+                out.append("  %s (%s) %s" % (nm[0:25].ljust(25), ad, " ".join(hx[i:i + 4] for i in range(0, len(hx), 4)).upper()))
+        return {"Register Dump": out}
+
+    def data_of(n, seed):
+        return bytes((i * 37 + seed) % 256 for i in range(n))
+    samples = [
+        [],
+        [("20da0020", 3, 1, [])],
+        [("20da0020", 0x0102, 7, [("abcdef", 2, data_of(5, 1))])],
+        [("20da0020", 3, 1, [("abcdef", 2, data_of(1, 3)), ("000102", 0, data_of(8, 5)), ("fffefd", 9, data_of(2, 9))]),
+         ("120a0001", 0, 0, []),
+         ("00d10010", 65535, 255, [("00000a", 255, data_of(3, 0xF0)), ("0b0000", 1, data_of(4, 0xAB))])],
+        [("aabbccdd", 1, 2, [("a1b2c3", 4, data_of(255, 17)), ("010203", 5, data_of(16, 2))]), ("aabbccee", 2, 1, [("a1b2c3", 4, data_of(7, 1))])],
+    ]
+    bad = None
+    for chips in samples:
+        got = _run_doc(I, r, payload_of(chips), stubs, "register dump")
+        want = want_of(chips)
+        if got != want and bad is None:
+            gl = got.get("Register Dump") if isinstance(got, dict) else None
+            wl = want["Register Dump"]
+            if isinstance(gl, list):
+                k = next((i for i in range(max(len(gl), len(wl))) if i >= len(gl) or i >= len(wl) or gl[i] != wl[i]), 0)
+                bad = "a dump of %d chip(s) with %s register(s): line %d is %r, documented %r" % (
+                    len(chips), [len(c[3]) for c in chips], k, gl[k] if k < len(gl) else None, wl[k] if k < len(wl) else None)
+            else:
+                bad = "a dump of %d chip(s) is shown as %s" % (len(chips), repr(got)[:200])
+    rep.count("register dump samples evaluated", len(samples))
+    rep.check(bad is None, rule, "chip count @0/4; per chip model/EC @+0/4 (hex), position @+4/2, node @+6/1, register count @+7/4, one description line "
+              "padded with '*' to 60; per register id @+0/3 (hex), instance @+3/1, size @+4/1, looked up under THIS chip's model/EC, one line with "
+              "name (cropped/padded to 25), address and every hex digit of exactly its data bytes in groups of 4, upper case; all in order", where,
+              "dump.append(...)", "the register dump does not list every chip and register in order with its own id, instance, address and exactly "
+              "its data bytes: %s" % bad)
 
 
 def check_small_sections(rep, prog):
